@@ -8,9 +8,12 @@
 EXTENDS BigInt
 CONSTANTS MaxFrac, CoeffBits
 T == INSTANCE FpText WITH MaxFrac <- MaxFrac, CoeffBits <- CoeffBits
+I128Max == IF CoeffBits = 127 THEN I128MaxLit ELSE BSub(BPow2(CoeffBits), BLit(1))
+I128Min == IF CoeffBits = 127 THEN I128MinLit ELSE BNeg(BPow2(CoeffBits))
 S == INSTANCE FpDec WITH ZAdd <- BAdd, ZSub <- BSub, ZMul <- BMul, ZCmp <- BCmp, ZFloorDivMod <- BFloorDivMod,
        ZLit <- BLit, ZNeg <- BNeg, ZAbs <- BAbs, ZSign <- BSign, ZIsEven <- BIsEven, ZMod5Is0 <- BMod5Is0,
-       ZPow10 <- BPow10, ZPow2 <- BPow2, ZDigits <- BDigits, MaxFrac <- MaxFrac, CoeffBits <- CoeffBits
+       ZPow10 <- BPow10, ZPow2 <- BPow2, ZDigits <- BDigits, MaxFrac <- MaxFrac, CoeffBits <- CoeffBits,
+       CoeffMax <- I128Max, CoeffMin <- I128Min, MaxDigits <- 39
 Num(j) == Mk(j.s, j.m)
 
 (* F3 (C04): src/binops/div_rounded.rs impl_div_rounded_int_and_int - integer.div_rounded(integer, n) has *)
